@@ -1,5 +1,6 @@
 import Octo.Model.PacketWindow
 import Octo.Model.Addr
+import Octo.Model.AddrOrd
 import Octo.Model.SsConfig
 import Octo.Model.Vmess
 import Octo.Model.Trojan
@@ -318,6 +319,10 @@ def step (st : St) (toks : List String) : St × String :=
   | ["addr.trylen", h, at_] =>
     match unhexOrDash h, at_.toNat? with
     | some b, some n => (st, showRes toString (Socks5Addr.tryDecodeAt b n))
+    | _, _ => (st, "bad-op")
+  | ["addr.cmp", a, b] =>
+    match parseAddr a, parseAddr b with
+    | some a, some b => (st, match Addr.cmp a b with | .lt => "lt" | .eq => "eq" | .gt => "gt")
     | _, _ => (st, "bad-op")
   | ["addr.enc", "vm", a] =>
     match parseAddr a with
@@ -651,6 +656,13 @@ def step (st : St) (toks : List String) : St × String :=
       ({ st with objs := st.objs.insert name (.world { w with listeners := Listener.step w.listeners f, udpSinceBase := w.udpSinceBase || touchesUdp }) },
        if na then "n/a" else "done")
     | _, _ => (st, "bad-op")
+  | "e2e.udpflood" :: name :: _ =>
+    -- sessions that flood in both directions lose datagrams of their own; the relay goes on for everybody (C08)
+    match st.objs.get? name with
+    | some (.world w) =>
+      ({ st with objs := st.objs.insert name (.world { w with listeners := Listener.step w.listeners .udpFlood, udpSinceBase := true }) },
+       if w.protocol != "shadowsocks" || !w.udp then "n/a" else "done")
+    | _ => (st, "bad-op")
   | "e2e.resolver" :: name :: _ =>
     -- flows whose names meet a resolver that stays silent wait by themselves: a flow to an address is served meanwhile
     match st.objs.get? name with
